@@ -89,6 +89,11 @@ ParseAsCoded(s) ==
                                      IF i = 0 THEN "" ELSE Cut(s2, i))
                IN IF WellFormed(r) THEN r ELSE ParseErr
 
+(* ... and it looks at four characters after the flags whether or not the    *)
+(* text has them: a shorter text is a panic (slice bounds), not a refspec    *)
+ShortTextPanics(s) ==
+  Len(s) < (IF StartsWith(s, "+") THEN 1 ELSE 0) + (IF StartsWith(s, "^") THEN 1 ELSE 0) + 4
+
 SrcOf(r) == IF r.tag # "" THEN "refs/tags/" \o r.tag ELSE r.src
 DstOf(r) == IF r.tag # "" THEN "refs/tags/" \o r.tag ELSE r.dst
 
